@@ -17,6 +17,12 @@ inductive TyReq where
   | array (base : Nat) (len : Option Nat) (stride : Nat)     -- `none` = runtime-sized
   | pointer (base space : Nat)
   | atomic (kind width : Nat)
+  | struct (members : List (String × Nat × Nat)) (span : Nat)     -- (name, type handle, offset)
+  | sampler (comparison : Bool)
+  | image (dim : Nat) (arrayed : Bool) (cls : Nat) (multisampled : Bool) (format access sampledKind : Nat)
+  | accel
+  | rayQuery
+  | bindingArray (base : Nat) (size : Option Nat)
   deriving Repr, DecidableEq, Inhabited
 
 abbrev Entry := String × TyReq
